@@ -58,6 +58,10 @@ def scenarios(tier: str) -> list[dict]:
         out.append({"path": "client-connected", "variant": v})
     out.append({"path": "client-never-connected"})
     out.append({"path": "client-connecting"})
+    # server-side client object of a running AsyncTCPNetworkServer: its own aclose(), and the tear-down of its task by shutdown()
+    for v in ("clean", "unsent-peer-reads", "unsent-peer-never-reads"):
+        out.append({"path": "srv-client-aclose", "variant": v})
+        out.append({"path": "srv-shutdown", "variant": v})
     return out
 
 
@@ -67,7 +71,7 @@ def run(ctx: Ctx, cfg: dict) -> dict:
     out: dict[str, Any] = {}
     extra_chains: list[Chain] = []
     sock = None
-    if cfg["path"] in ("adapter", "client-connected", "client-never-connected", "client-connecting"):
+    if cfg["path"] in ("adapter", "client-connected", "client-never-connected", "client-connecting", "srv-client-aclose", "srv-shutdown"):
         unsent = cfg.get("variant", "clean") != "clean"
         sock = world.stream_socket(tx_cap=2 if unsent else None)
         if cfg.get("variant") == "unsent-peer-reads":
@@ -90,7 +94,11 @@ def run(ctx: Ctx, cfg: dict) -> dict:
     # (a leaf whose first aclose() call blocks forever would make whichever close reaches it first hang: the second
     # close is only explored with leaves that do finish)
     blocks = "blocks" in (cfg.get("fa"), cfg.get("fb"))
-    second_chain = Chain("second", [("S", do_second)]) if cfg.get("second", True) and not blocks else None
+    # (srv-shutdown with unsent data: a concurrent client.aclose() from another task keeps the send lock while it waits for a peer
+    # that does not read; the cancelled client task then queues behind that lock in _on_disconnect and shutdown() waits with it.
+    # Nobody cancels that second close, so like the blocking leaves it is outside the statement: see DESIGN.md 10.6)
+    stuck_second = cfg["path"] == "srv-shutdown" and cfg.get("variant") != "clean"
+    second_chain = Chain("second", [("S", do_second)]) if cfg.get("second", True) and not blocks and not stuck_second else None
     if second_chain is not None:
         chains.append(second_chain)
     chains += extra_chains
@@ -130,6 +138,36 @@ def run(ctx: Ctx, cfg: dict) -> dict:
         elif path == "client-connected":
             obj = AsyncTCPNetworkClient(sock, StreamProtocol(StringLineSerializer()), backend)
             await obj.wait_connected()
+        elif path in ("srv-client-aclose", "srv-shutdown"):
+            from easynetwork.servers.async_tcp import AsyncTCPNetworkServer
+            from easynetwork.servers.handlers import AsyncStreamRequestHandler
+
+            from ..srvrig import RigBackend, quiet_logger
+
+            connected: dict[str, Any] = {}
+
+            class Handler(AsyncStreamRequestHandler):
+                async def on_connection(self, client: Any) -> None:
+                    connected["client"] = client
+
+                async def handle(self, client: Any) -> Any:
+                    while True:
+                        yield
+
+            rb = RigBackend(world)
+            server = AsyncTCPNetworkServer(None, 0, StreamProtocol(StringLineSerializer()), Handler(), backend=rb, logger=quiet_logger())
+            st["serve_task"] = loop.create_task(server.serve_forever())
+            for _ in range(50):
+                if server.is_serving():
+                    break
+                await asyncio.sleep(0)
+            rb.tcp_listener_socks[0].accept_q.append(sock)
+            for _ in range(50):
+                if "client" in connected:
+                    break
+                await asyncio.sleep(0.001)
+            obj = connected["client"]
+            st["server"] = server
         else:
             obj = AsyncTCPNetworkClient(sock, StreamProtocol(StringLineSerializer()), backend)
             if path == "client-connecting":
@@ -150,7 +188,10 @@ def run(ctx: Ctx, cfg: dict) -> dict:
 
         async def first_close() -> None:
             st["started"] = True  # "once a close operation has started": a cancel before the first step is not a subject
-            await obj.aclose()
+            if path == "srv-shutdown":
+                await st["server"].shutdown()  # tears the client task down: its transport must end closed
+            else:
+                await obj.aclose()
 
         closer = loop.create_task(first_close())
         st["closer"] = closer
@@ -161,6 +202,10 @@ def run(ctx: Ctx, cfg: dict) -> dict:
         if wtask is not None:
             await asyncio.wait([wtask])
             out["wait_connected"] = "cancelled" if wtask.cancelled() else ("raised:" + type(wtask.exception()).__name__ if wtask.exception() else "returned")
+        if path == "srv-shutdown":
+            # shutdown() was started: whether or not its caller was cancelled, serve_forever() ends and the client's socket is released
+            done, _pending = await asyncio.wait([st["serve_task"]], timeout=100.0)
+            out["serve_ended"] = bool(done)
         if st["second"] is not None:
             # the second close may legitimately wait for the first, never longer than 3 iterations after it
             # (counted from the later of: first close finished, second close started)
@@ -197,6 +242,9 @@ def run(ctx: Ctx, cfg: dict) -> dict:
             third.cancel()
         elif third.exception() is not None and not third.cancelled():
             out["third_exc"] = type(third.exception()).__name__
+        if path == "srv-client-aclose":
+            await st["server"].shutdown()
+            await asyncio.wait([st["serve_task"]], timeout=100.0)
 
     status, value, loop = vloop.run(world, main)
     out["status"] = status
@@ -221,6 +269,8 @@ def oracle(cfg: dict, obs: dict) -> str | None:
     if cfg["path"] in ("stapled-stream", "stapled-dgram", "endpoint-mem"):
         if not all(obs["leaves_closed"]):
             return "leaf-transport-left-open"
+    elif cfg["path"] == "srv-shutdown" and not obs.get("serve_ended"):
+        return "serve_forever-still-running-after-shutdown-started"
     elif cfg["path"] == "client-never-connected":
         pass  # no transport was ever created; what happens to the caller's socket is reported separately below
     else:
